@@ -221,6 +221,6 @@ def build() -> Check:
         ],
         clauses=[
             HypClause("noise", case_st, oracle, quick=3500, thorough=300000),
-            FuzzClause("coverage-guided", "C14", oracle, quick=(2, 600), thorough=(16, 60000), max_len=400, doc="atheris/libFuzzer campaigns on the same oracle (raw bytes -> splitting + noise), empty and fixture corpora"),
+            FuzzClause("coverage-guided", "C14", oracle, quick=(2, 250), thorough=(16, 40000), max_len=400, doc="atheris/libFuzzer campaigns on the same oracle (raw bytes -> splitting + noise), empty and fixture corpora"),
         ],
     )
